@@ -12,7 +12,7 @@
    other kinds are covered by the differential oracle of harness/cmd/c21 on
    the real code only (level: partial). *)
 From Coq Require Import ZArith NArith List Bool.
-From ELA Require Import lib.History proof.C20_History model.C21_Dpos proof.C21_Dpos.
+From ELA Require Import lib.History proof.C20_History model.C21_Dpos proof.C21_Dpos proof.C21_OneWriter.
 Import ListNotations.
 Local Open Scope Z_scope.
 
@@ -43,6 +43,32 @@ Theorem C21_rollback_eq_direct_partial : forall (P : params) bs1 bs2 st1 st2,
               snd st' = snd st1 /\ h_height (fst st') = h_height (fst st1).
 Proof. exact rollback_eq_direct. Qed.
 Print Assumptions C21_rollback_eq_direct_partial.
+
+(* From block validity to the discipline hypothesis: if every change of the
+   block is disciplined on its own and every coordinate is written by at most
+   one change of the block unless all its updates in the block are additions
+   (the node admits one transaction per producer per block; votes and deposit
+   amounts are additive), the block is disciplined. *)
+Theorem C21_one_writer_discipline : forall (s : vec) (cs : list dchg),
+  each_disciplined s cs = true -> one_writer s cs = true -> changes_disciplined s cs = true.
+Proof. exact one_writer_discipline. Qed.
+Print Assumptions C21_one_writer_discipline.
+
+(* ... hence rollback = direct build for every sequence of such valid blocks. *)
+Theorem C21_rollback_eq_direct_valid_blocks : forall (P : params) bs1 bs2 st1 st2,
+  blocks_validb P (bs1 ++ bs2) (init P) = true ->
+  process_all P bs1 (init P) = Some st1 ->
+  process_all P bs2 st1 = Some st2 ->
+  (length (h_changes (fst st2)) >= length bs2)%nat ->
+  exists st', rollback (Z.of_N (h_height (fst st1))) (Some st2) = Some st' /\
+              snd st' = snd st1 /\ h_height (fst st') = h_height (fst st1).
+Proof. exact rollback_eq_direct_valid. Qed.
+Print Assumptions C21_rollback_eq_direct_valid_blocks.
+
+Example C21_valid_blocks_nonvacuous :
+  blocks_validb dP (d_blocks1 ++ d_blocks2) (init dP) = true /\
+  blocks_validb iPar i_prefix (init iPar) = true.
+Proof. exact valid_blocks_demo. Qed.
 
 (* [blocks_ok] is decidable: the boolean form used by the correspondence. *)
 Theorem C21_blocks_ok_decidable : forall P bs st, blocks_okb P bs st = true -> blocks_ok P bs st.
